@@ -1,16 +1,374 @@
+// inst rewrites selected honeytrap source files for the fine-grain cooperative
+// scheduler and writes a `go build -overlay` file. It works on the CURRENT
+// sources of the repository given with -repo (nothing is written there):
+//
+//   - a call verifsched.Yield(site) is inserted before every statement that
+//     contains a channel send/receive, a select, a go statement or a range over a
+//     channel;
+//   - x.Lock()/Unlock()/RLock()/RUnlock() on a sync.Mutex / sync.RWMutex become
+//     verifsched.Lock(&x, site) / verifsched.Unlock(&x) ... (also when deferred);
+//   - every statement that reads or writes a map held in one of the configured
+//     struct fields is preceded by verifsched.Access(&field, isWrite, site);
+//   - configured functions get verifsched.Enter(name, tag) as first statement.
+//
+// usage: inst -repo /repo -out DIR     (prints the overlay path)
 package main
 
 import (
+	"bytes"
+	"encoding/json"
+	"flag"
 	"fmt"
+	"go/ast"
+	"go/format"
+	"go/parser"
+	"go/token"
+	"go/types"
+	"os"
+	"path/filepath"
+	"strings"
 
 	"golang.org/x/tools/go/packages"
 )
 
-func main() {
-	cfg := &packages.Config{Mode: packages.NeedName | packages.NeedFiles | packages.NeedSyntax | packages.NeedTypes | packages.NeedTypesInfo | packages.NeedImports | packages.NeedDeps, Dir: "/repo"}
-	pkgs, err := packages.Load(cfg, "./listener/agent")
-	fmt.Println(len(pkgs), err)
-	for _, p := range pkgs {
-		fmt.Println(p.PkgPath, len(p.Syntax), p.Errors)
+type target struct {
+	Pkg   string            // package pattern relative to the repo
+	Files []string          // base names to instrument
+	Maps  []string          // struct field names holding maps to watch
+	Entry map[string]string // function name ("Handle" or "(*T).Handle") -> tag expression
+}
+
+var targets = []target{
+	{Pkg: "./listener/agent", Files: []string{"connection.go", "agent.go", "connections.go"}},
+	{Pkg: "./services", Files: []string{"tftp.go"}, Maps: []string{"buffers"}, Entry: map[string]string{"(*tftpService).Handle": "conn.RemoteAddr().String()"}},
+	{Pkg: "./listener/canary", Files: []string{"socket.go"}},
+}
+
+const schedPath = "github.com/honeytrap/honeytrap/verifsched"
+
+type rewriter struct {
+	fset  *token.FileSet
+	info  *types.Info
+	file  string
+	maps  map[string]bool
+	n     int
+	funcs map[string]string
+}
+
+func (r *rewriter) site(pos token.Pos) string {
+	p := r.fset.Position(pos)
+	return fmt.Sprintf("%s:%d", filepath.Base(p.Filename), p.Line)
+}
+
+func call(fn string, args ...ast.Expr) *ast.CallExpr {
+	return &ast.CallExpr{Fun: &ast.SelectorExpr{X: ast.NewIdent("verifsched"), Sel: ast.NewIdent(fn)}, Args: args}
+}
+
+func lit(s string) ast.Expr { return &ast.BasicLit{Kind: token.STRING, Value: fmt.Sprintf("%q", s)} }
+
+// syncMethod reports whether c is x.Lock() etc. on a sync.Mutex/RWMutex reached directly, and returns a pointer expression to it.
+func (r *rewriter) syncMethod(c *ast.CallExpr) (name string, ptr ast.Expr, ok bool) {
+	sel, isSel := c.Fun.(*ast.SelectorExpr)
+	if !isSel || len(c.Args) != 0 {
+		return
 	}
+	switch sel.Sel.Name {
+	case "Lock", "Unlock", "RLock", "RUnlock":
+	default:
+		return
+	}
+	s := r.info.Selections[sel]
+	if s == nil || s.Kind() != types.MethodVal || len(s.Index()) != 1 {
+		return
+	}
+	recv := s.Recv()
+	isPtr := false
+	if p, okp := recv.(*types.Pointer); okp {
+		recv = p.Elem()
+		isPtr = true
+	}
+	named, okn := recv.(*types.Named)
+	if !okn || named.Obj().Pkg() == nil || named.Obj().Pkg().Path() != "sync" {
+		return
+	}
+	if n := named.Obj().Name(); n != "Mutex" && n != "RWMutex" {
+		return
+	}
+	if isPtr {
+		return sel.Sel.Name, sel.X, true
+	}
+	return sel.Sel.Name, &ast.UnaryExpr{Op: token.AND, X: sel.X}, true
+}
+
+// scan looks into a simple statement / expression (not into nested function literals or blocks).
+type found struct {
+	chanOp   bool
+	lockCall *ast.CallExpr
+	mapExprs []ast.Expr
+	mapWrite bool
+}
+
+func (r *rewriter) isWatchedMap(e ast.Expr) bool {
+	sel, ok := e.(*ast.SelectorExpr)
+	if !ok || !r.maps[sel.Sel.Name] {
+		return false
+	}
+	t := r.info.TypeOf(e)
+	if t == nil {
+		return false
+	}
+	_, isMap := t.Underlying().(*types.Map)
+	return isMap
+}
+
+func (r *rewriter) scan(n ast.Node, f *found) {
+	ast.Inspect(n, func(x ast.Node) bool {
+		switch v := x.(type) {
+		case *ast.FuncLit, *ast.BlockStmt:
+			return false
+		case *ast.UnaryExpr:
+			if v.Op == token.ARROW {
+				f.chanOp = true
+			}
+		case *ast.SendStmt:
+			f.chanOp = true
+		case *ast.IndexExpr:
+			if r.isWatchedMap(v.X) {
+				f.mapExprs = append(f.mapExprs, v.X)
+			}
+		case *ast.CallExpr:
+			if id, ok := v.Fun.(*ast.Ident); ok && id.Name == "delete" && len(v.Args) == 2 && r.isWatchedMap(v.Args[0]) {
+				f.mapExprs = append(f.mapExprs, v.Args[0])
+				f.mapWrite = true
+			}
+			if id, ok := v.Fun.(*ast.Ident); ok && id.Name == "len" && len(v.Args) == 1 && r.isWatchedMap(v.Args[0]) {
+				f.mapExprs = append(f.mapExprs, v.Args[0])
+			}
+		}
+		return true
+	})
+}
+
+// before returns the statements to insert before s (and possibly a replacement for s).
+func (r *rewriter) before(s ast.Stmt) (pre []ast.Stmt, repl ast.Stmt) {
+	repl = s
+	var f found
+	switch v := s.(type) {
+	case *ast.SelectStmt:
+		f.chanOp = true
+	case *ast.GoStmt:
+		f.chanOp = true
+	case *ast.RangeStmt:
+		if t := r.info.TypeOf(v.X); t != nil {
+			if _, ok := t.Underlying().(*types.Chan); ok {
+				f.chanOp = true
+			}
+		}
+		if r.isWatchedMap(v.X) {
+			f.mapExprs = append(f.mapExprs, v.X)
+		}
+	case *ast.ExprStmt:
+		if c, ok := v.X.(*ast.CallExpr); ok {
+			if name, ptr, ok := r.syncMethod(c); ok {
+				r.n++
+				if name == "Lock" || name == "RLock" {
+					return nil, &ast.ExprStmt{X: call(name, ptr, lit(r.site(s.Pos())))}
+				}
+				return nil, &ast.ExprStmt{X: call(name, ptr)}
+			}
+		}
+		r.scan(v.X, &f)
+	case *ast.DeferStmt:
+		if name, ptr, ok := r.syncMethod(v.Call); ok && (name == "Unlock" || name == "RUnlock") {
+			r.n++
+			return nil, &ast.DeferStmt{Call: call(name, ptr)}
+		}
+		return nil, s
+	case *ast.AssignStmt:
+		for _, l := range v.Lhs {
+			if ix, ok := l.(*ast.IndexExpr); ok && r.isWatchedMap(ix.X) {
+				f.mapWrite = true
+			}
+		}
+		r.scan(v, &f)
+	case *ast.IncDecStmt, *ast.ReturnStmt, *ast.SendStmt:
+		r.scan(s, &f)
+	case *ast.IfStmt:
+		if v.Init != nil {
+			r.scan(v.Init, &f)
+		}
+		r.scan(v.Cond, &f)
+	case *ast.SwitchStmt:
+		if v.Init != nil {
+			r.scan(v.Init, &f)
+		}
+		if v.Tag != nil {
+			r.scan(v.Tag, &f)
+		}
+	case *ast.ForStmt:
+		if v.Cond != nil {
+			r.scan(v.Cond, &f)
+		}
+	}
+	if f.chanOp {
+		r.n++
+		pre = append(pre, &ast.ExprStmt{X: call("Yield", lit(r.site(s.Pos())))})
+	}
+	seen := map[string]bool{}
+	for _, m := range f.mapExprs {
+		var b bytes.Buffer
+		format.Node(&b, r.fset, m)
+		if seen[b.String()] {
+			continue
+		}
+		seen[b.String()] = true
+		r.n++
+		w := "false"
+		if f.mapWrite {
+			w = "true"
+		}
+		pre = append(pre, &ast.ExprStmt{X: call("Access", &ast.UnaryExpr{Op: token.AND, X: m}, ast.NewIdent(w), lit(r.site(s.Pos())))})
+	}
+	return
+}
+
+func (r *rewriter) list(stmts []ast.Stmt) []ast.Stmt {
+	var out []ast.Stmt
+	for _, s := range stmts {
+		r.walk(s)
+		pre, repl := r.before(s)
+		out = append(out, pre...)
+		out = append(out, repl)
+	}
+	return out
+}
+
+// walk rewrites nested statement lists (including function literals) inside s.
+func (r *rewriter) walk(n ast.Node) {
+	ast.Inspect(n, func(x ast.Node) bool {
+		switch v := x.(type) {
+		case *ast.BlockStmt:
+			v.List = r.list(v.List)
+			return false
+		case *ast.CaseClause:
+			v.Body = r.list(v.Body)
+			return false
+		case *ast.CommClause:
+			v.Body = r.list(v.Body)
+			return false
+		}
+		return true
+	})
+}
+
+func funcName(fd *ast.FuncDecl) string {
+	if fd.Recv == nil || len(fd.Recv.List) == 0 {
+		return fd.Name.Name
+	}
+	var b bytes.Buffer
+	format.Node(&b, token.NewFileSet(), fd.Recv.List[0].Type)
+	return "(" + b.String() + ")." + fd.Name.Name
+}
+
+func main() {
+	repo := flag.String("repo", "/repo", "repository root")
+	out := flag.String("out", "", "output directory")
+	flag.Parse()
+	if *out == "" {
+		fmt.Fprintln(os.Stderr, "need -out")
+		os.Exit(2)
+	}
+	os.MkdirAll(*out, 0755)
+	overlay := map[string]string{}
+	// the runtime package, added to the honeytrap module
+	self, _ := os.Executable()
+	rt := filepath.Join(filepath.Dir(self), "runtime", "sched.go")
+	if _, err := os.Stat(rt); err != nil {
+		rt = filepath.Join(os.Getenv("VF_INST_SRC"), "runtime", "sched.go")
+	}
+	rtSrc, err := os.ReadFile(rt)
+	if err != nil {
+		fmt.Fprintln(os.Stderr, "runtime source:", err)
+		os.Exit(2)
+	}
+	rtOut := filepath.Join(*out, "verifsched_sched.go")
+	os.WriteFile(rtOut, rtSrc, 0644)
+	overlay[filepath.Join(*repo, "verifsched", "sched.go")] = rtOut
+
+	total := 0
+	for _, t := range targets {
+		cfg := &packages.Config{Mode: packages.NeedName | packages.NeedFiles | packages.NeedCompiledGoFiles | packages.NeedSyntax | packages.NeedTypes | packages.NeedTypesInfo | packages.NeedImports | packages.NeedDeps,
+			Dir: *repo, ParseFile: func(fset *token.FileSet, filename string, src []byte) (*ast.File, error) {
+				return parser.ParseFile(fset, filename, src, parser.ParseComments)
+			}}
+		pkgs, err := packages.Load(cfg, t.Pkg)
+		if err != nil || len(pkgs) != 1 || len(pkgs[0].Errors) > 0 {
+			fmt.Fprintln(os.Stderr, "load", t.Pkg, err, pkgs)
+			os.Exit(2)
+		}
+		p := pkgs[0]
+		want := map[string]bool{}
+		for _, f := range t.Files {
+			want[f] = true
+		}
+		for i, af := range p.Syntax {
+			fn := p.CompiledGoFiles[i]
+			if !want[filepath.Base(fn)] {
+				continue
+			}
+			r := &rewriter{fset: p.Fset, info: p.TypesInfo, file: fn, maps: map[string]bool{}, funcs: t.Entry}
+			for _, m := range t.Maps {
+				r.maps[m] = true
+			}
+			for _, d := range af.Decls {
+				fd, ok := d.(*ast.FuncDecl)
+				if !ok || fd.Body == nil {
+					continue
+				}
+				fd.Body.List = r.list(fd.Body.List)
+				if tag, ok := t.Entry[funcName(fd)]; ok {
+					te, err := parser.ParseExpr(tag)
+					if err != nil {
+						fmt.Fprintln(os.Stderr, "tag expr:", err)
+						os.Exit(2)
+					}
+					fd.Body.List = append([]ast.Stmt{&ast.ExprStmt{X: call("Enter", lit(funcName(fd)), te)}}, fd.Body.List...)
+					r.n++
+				}
+			}
+			if r.n == 0 {
+				continue
+			}
+			var b bytes.Buffer
+			if err := format.Node(&b, p.Fset, af); err != nil {
+				fmt.Fprintln(os.Stderr, "format", fn, err)
+				os.Exit(2)
+			}
+			// add the import textually, right after the package clause (keeps build constraints and comments in place)
+			src := b.String()
+			pk := "\npackage " + af.Name.Name + "\n"
+			if strings.HasPrefix(src, "package "+af.Name.Name+"\n") {
+				src = "\n" + src
+			}
+			ix := strings.Index(src, pk)
+			if ix < 0 {
+				fmt.Fprintln(os.Stderr, "no package clause found in", fn)
+				os.Exit(2)
+			}
+			src = src[:ix+len(pk)] + "\nimport verifsched \"" + schedPath + "\"\n" + src[ix+len(pk):]
+			b.Reset()
+			b.WriteString(src)
+			rel, _ := filepath.Rel(*repo, fn)
+			o := filepath.Join(*out, strings.ReplaceAll(rel, "/", "__"))
+			os.WriteFile(o, b.Bytes(), 0644)
+			overlay[fn] = o
+			total += r.n
+			fmt.Fprintf(os.Stderr, "instrumented %s: %d points\n", rel, r.n)
+		}
+	}
+	ov, _ := json.MarshalIndent(map[string]interface{}{"Replace": overlay}, "", " ")
+	ovPath := filepath.Join(*out, "overlay.json")
+	os.WriteFile(ovPath, ov, 0644)
+	fmt.Println(ovPath)
+	fmt.Fprintf(os.Stderr, "%d points in total\n", total)
 }
